@@ -236,6 +236,8 @@ def install():
     import saml2_tophat.sigver as sigver
     import saml2_tophat.time_util as tu
     sigver.Popen = SeamPopen
+    import saml2_tophat.algsupport as algsupport
+    algsupport.Popen = SeamPopen
     warnings.simplefilter('ignore')      # some library modules reset the filter on import ...
     warnings.simplefilter = lambda *a, **k: None      # ... and later ones must not either
     # self-test: the library's clock readers must see the virtual clock
